@@ -152,9 +152,14 @@ class HistoryExplorer:
                             key="valid-call-raised:" + op.name)
                     if raised is None:
                         # same call twice in a row -> bit-identical
-                        res2 = op.fn(w)
+                        try:
+                            same = result_digest(res) == result_digest(op.fn(w))
+                            det = None
+                        except Exception as e:  # noqa
+                            same = False
+                            det = "second call raised %s: %s" % (type(e).__name__, str(e)[:120])
                         o.call()
-                        o.check("I3 repeated call identical: " + label, result_digest(res) == result_digest(res2),
+                        o.check("I3 repeated call identical: " + label, same, detail=det,
                                 key="I3-repeat:" + op.name, token=("rep", op.name, result_digest(res)[:12]))
                 elif op.kind == "invalid":
                     o.check("invalid call is rejected: " + label, raised is not None, key="invalid-call-accepted:" + op.name,
